@@ -1,0 +1,5 @@
+//! Verification hooks (only compiled with `--cfg libp2p_verif`), family `kad`: public paths to
+//! crate-private routing-table and peer-iterator types. See the child hook modules for the
+//! (thin, forwarding) wrappers themselves.
+
+pub use crate::kbucket::verif_kad_kb as kb;
